@@ -82,7 +82,7 @@ CHECKS = {
             'DESIGN.md section 3 C19'),
     # id: (technique, level text, level note, design ref)
     'C20': ('MIR call-graph SCCs + dominator rule: arena-following recursion must be visited-set guarded (rustc_private driver)',
-            'Structural clause decided for every recursive call site of the crate (resolved MIR, all paths): un-memoised recursion along shared arena handles is the only way the generator can multiply work with call depth / nesting; the rule demands a dominating visited-set branch keyed by the followed handle (or a single recursive call per activation) and forbids shrinking the set. Decides the shape of the recursion, not wall-clock time.',
+            'Structural clause decided for every recursive call site of the crate (resolved MIR, all paths): un-memoised recursion along shared arena handles is the only way the generator can multiply work with call depth / nesting; the rule demands a dominating visited-set branch keyed by the followed handle (or a single recursive call per activation), requires every recursive call to hand on the very set it received (C20.guard-set-threaded: a clone or a fresh set forgets what sibling calls visit), and forbids shrinking the set; work lists are classified the same way (owned sub-structure is linear, arena handles need the guard). Decides the shape of the recursion, not wall-clock time.',
             'Trusted: rustc nightly MIR + Instance resolution; cost inside naga/syn/prettyplease/rustfmt; constant factors. Loops are polynomial by nesting (reported, not judged).',
             'DESIGN.md section 3 C20'),
 }
